@@ -252,15 +252,15 @@ def plan(pid, tier):
                         + sweep_jobs('h_codec', 'c02_band', 2 if q else 6))
     P['C03'] = lambda: (rc_jobs('h_codec', 'c03', 12, 3000 if q else 40000) + sweep_jobs('h_codec', 'c03_xor_sweep', 3 if q else 12)
                         + sweep_jobs('h_codec', 'c03_rs_sweep', 1))
-    P['C04'] = lambda: (sweep_jobs('h_format', 'c04_matrix', 12) + rc_jobs('h_format', 'c04_parity', 4, 2500 if q else 30000))
-    P['C05'] = lambda: (sweep_jobs('h_format', 'c05_tables', 1) + sweep_jobs('h_format', 'c05_encode', 2) + sweep_jobs('h_format', 'c05_encode', 1, variant='asan-nosse')
+    P['C04'] = lambda: (sweep_jobs('h_format', 'selftest', 1) + sweep_jobs('h_format', 'c04_matrix', 12) + rc_jobs('h_format', 'c04_parity', 4, 2500 if q else 30000))
+    P['C05'] = lambda: (sweep_jobs('h_format', 'selftest', 1) + sweep_jobs('h_format', 'c05_tables', 1) + sweep_jobs('h_format', 'c05_encode', 2) + sweep_jobs('h_format', 'c05_encode', 1, variant='asan-nosse')
                         + sweep_jobs('h_format', 'c05_unsupported', 1)
                         + sweep_jobs('h_codec', 'c05_decode_sweep', 6 if q else 8) + sweep_jobs('h_codec', 'c05_decode_sweep', 4 if q else 8, variant='asan-nosse'))
-    P['C07'] = lambda: (rc_jobs('h_format', 'c07', 12, 6000 if q else 60000) + sweep_jobs('h_format', 'c07_sweep', 4))
+    P['C07'] = lambda: (sweep_jobs('h_format', 'selftest', 1) + rc_jobs('h_format', 'c07', 12, 6000 if q else 60000) + sweep_jobs('h_format', 'c07_sweep', 4))
     P['C08'] = lambda: (rc_jobs('h_format', 'c08', 10, 8000 if q else 80000) + sweep_jobs('h_format', 'c08_sweep', 6))
     P['C06'] = lambda: (rc_jobs('h_needed', 'c06', 8, 6000 if q else 80000) + sweep_jobs('h_needed', 'c06_xor_sweep', 4) + sweep_jobs('h_needed', 'c06_rs_sweep', 4 if q else 12))
     P['C09'] = lambda: (rc_jobs('h_header', 'c09', 12, 2500 if q else 60000) + sweep_jobs('h_header', 'c09_sweep', 4) + ([] if q else fuzz_jobs('fuzz_header', 'C09', 8, 240)))
-    P['C10'] = lambda: (rc_jobs('h_header', 'c10', 10, 10000 if q else 100000) + sweep_jobs('h_header', 'c10_sweep', 2) + rc_jobs('h_header', 'c10_alt', 2, 5000 if q else 100000))
+    P['C10'] = lambda: (sweep_jobs('h_format', 'selftest', 1) + rc_jobs('h_header', 'c10', 10, 10000 if q else 100000) + sweep_jobs('h_header', 'c10_sweep', 2) + rc_jobs('h_header', 'c10_alt', 2, 5000 if q else 100000))
     P['C11'] = lambda: rc_jobs('h_header', 'c11', 16, 8000 if q else 80000) + ([] if q else fuzz_jobs('fuzz_header', 'C11', 4, 180))
     P['C12'] = lambda: rc_jobs('h_header', 'c12', 16, 8000 if q else 80000) + ([] if q else fuzz_jobs('fuzz_header', 'C12', 6, 240))
     P['C13'] = lambda: (sweep_jobs('h_args', 'c13_grid', 4) + rc_jobs('h_args', 'c13_grid_rc', 2, 1500 if q else 30000)
